@@ -210,3 +210,68 @@ theorem get_mkdirP_file {fs : FS} {base : Path} {rel : List Seg} {p : Path}
   exact h q hq
 
 end Pharmpy.C16
+
+namespace Pharmpy.C16
+
+theorem storeEntryBody_avoids_pending (m : MDesc) (k : String) :
+    ∀ fs o, o ∈ (storeEntryBody m fs).1 → o.path ≠ pendingPath k :=
+  fun _ _ ho => bodyFoot_ne_pending k (storeEntryBody_paths ho)
+
+
+/-- A reader of key `k` that found its entry depends only on files the later
+    store of another key never addresses. -/
+theorem readEntry_ok_congr {k : String} {fs fs' : FS} {e : Entry}
+    (h1 : get fs' (modelPath k "mod") = get fs (modelPath k "mod"))
+    (h2 : get fs' (modelPath k "ctl") = get fs (modelPath k "ctl"))
+    (h3 : get fs' (resultsPath k) = get fs (resultsPath k))
+    (h4 : ∀ n, pexists fs (datasetsDir ++ [.csv n]) = true →
+      get fs' (datasetsDir ++ [.csv n]) = get fs (datasetsDir ++ [.csv n]) ∧
+      get fs' (datasetsDir ++ [.dinfo n]) = get fs (datasetsDir ++ [.dinfo n]))
+    (h : readEntry k fs = .ok e) : readEntry k fs' = .ok e := by
+  have hf : findModel k fs' = findModel k fs := by
+    unfold findModel isFile; rw [h1, h2]
+  unfold readEntry at h ⊢
+  rw [hf]
+  cases hm : findModel k fs with
+  | none => rw [hm] at h; cases h
+  | some p =>
+    have hp : get fs' p = get fs p := by
+      simp only [findModel] at hm
+      split at hm
+      · cases hm; exact h1
+      · split at hm
+        · cases hm; exact h2
+        · cases hm
+    rw [hm] at h
+    have hrp : read fs' p = read fs p := by simp only [read, hp]
+    simp only [hrp, h3] at h ⊢
+    cases hrd : read fs p with
+    | none => simp [hrd] at h
+    | some c =>
+      cases c with
+      | text cs => simp [hrd] at h
+      | part t q => simp [hrd] at h
+      | full t =>
+        cases t with
+        | model code ref =>
+          simp only [hrd] at h ⊢
+          cases ref with
+          | none => exact h
+          | some r =>
+            simp only at h ⊢
+            cases hc : get fs (datasetsDir ++ [.csv r]) with
+            | none => simp [read, hc] at h
+            | some nd =>
+              have := h4 r (by simp [pexists, hc])
+              have e1 : read fs' (datasetsDir ++ [.csv r]) = read fs (datasetsDir ++ [.csv r]) := by
+                simp only [read, this.1]
+              have e2 : read fs' (datasetsDir ++ [.dinfo r]) = read fs (datasetsDir ++ [.dinfo r]) := by
+                simp only [read, this.2]
+              rw [e1, e2]; exact h
+        | csv d => simp [hrd] at h
+        | dinfo d q => simp [hrd] at h
+        | results r => simp [hrd] at h
+        | mdata r => simp [hrd] at h
+
+
+end Pharmpy.C16
